@@ -6,10 +6,11 @@ import (
 	"strconv"
 	"strings"
 
-	"github.com/mmcloughlin/avo/operand"
-
 	"github.com/mmcloughlin/avo/ir"
+	"github.com/mmcloughlin/avo/operand"
 	"github.com/mmcloughlin/avo/pass"
+	"github.com/mmcloughlin/avo/reg"
+	"github.com/mmcloughlin/avo/x86"
 )
 
 func classifyCFGErr(err error) string {
@@ -40,7 +41,10 @@ func sortedSet(xs []int) []int {
 	return out
 }
 
-// encGraph renders Succ/Pred of every instruction as sorted index sets (nil successor = -1).
+// encGraph renders Succ/Pred of every instruction as sorted index sets. A nil successor ("falls off the end of
+// the function") is a representation detail of avo that the property does not pin (it prescribes NO successor when
+// there is no following instruction), so it is dropped here and on the model side alike. A successor/predecessor
+// that is not an instruction of the function is rendered as the impossible index 1000000 (never equal to the model).
 func encGraph(fn *ir.Function) string {
 	idx := instrIndex(fn)
 	is := fn.Instructions()
@@ -49,10 +53,9 @@ func encGraph(fn *ir.Function) string {
 		var s []int
 		for _, x := range i.Succ {
 			if x == nil {
-				s = append(s, -1)
-			} else {
-				s = append(s, idx[x])
+				continue
 			}
+			s = append(s, c09Idx(idx, x))
 		}
 		s = sortedSet(s)
 		parts = append(parts, itoa(len(s)))
@@ -63,7 +66,11 @@ func encGraph(fn *ir.Function) string {
 	for _, i := range is {
 		var p []int
 		for _, x := range i.Pred {
-			p = append(p, idx[x])
+			if x == nil {
+				p = append(p, 1000001)
+				continue
+			}
+			p = append(p, c09Idx(idx, x))
 		}
 		p = sortedSet(p)
 		parts = append(parts, itoa(len(p)))
@@ -72,6 +79,13 @@ func encGraph(fn *ir.Function) string {
 		}
 	}
 	return strings.Join(parts, " ")
+}
+
+func c09Idx(idx map[*ir.Instruction]int, x *ir.Instruction) int {
+	if k, ok := idx[x]; ok {
+		return k
+	}
+	return 1000000
 }
 
 // runCFG runs the real LabelTarget and CFG passes.
@@ -137,9 +151,47 @@ func init() {
 			}
 			return writeJSON(*f.stats, stats)
 		}
+		run := func(stream string, fn *ir.Function) {
+			req := encNodes(fn)
+			resp := runCFG(fn)
+			if strings.HasPrefix(resp, "err") {
+				stats["err:"+lastCFGErrClass]++
+				stats[stream+":err:"+lastCFGErrClass]++
+			} else {
+				stats["ok:graph"]++
+				stats[stream+":ok"]++
+			}
+			stats["cases:"+stream]++
+			stats["nodes"] += len(fn.Nodes)
+			ni := 0
+			for _, n := range fn.Nodes {
+				switch n := n.(type) {
+				case ir.Label:
+					stats["labels"]++
+				case *ir.Instruction:
+					ni++
+					if !n.IsBranch && len(n.Operands) > 0 {
+						if _, ok := n.Operands[0].(operand.LabelRef); ok {
+							stats["nonbranch_labelref"]++
+						}
+					}
+				}
+			}
+			switch {
+			case len(fn.Nodes) == 0:
+				stats["shape:empty"]++
+			case ni == 0:
+				stats["shape:no_instructions"]++
+			case ni >= 100:
+				stats["shape:100+_instructions"]++
+			}
+			o.emit("cfg "+req, resp)
+			o.emit("accept-cfg "+req+" => "+resp, "ok")
+		}
+		// stream 1: functions built by the shared generator from the real form table
 		for k := 0; k < *f.n; k++ {
 			cfg := genCfg{minInstr: 1, maxInstr: 3 + r.intn(20), nGP: 2, physPct: 50, branchPct: 35,
-				malformed: r.chance(1, 2), indirectJumps: r.chance(1, 3), opcodes: []string{"NOP", "ADDQ", "MOVQ", "CALL"}}
+				malformed: r.chance(1, 2), indirectJumps: r.chance(1, 3), opcodes: []string{"NOP", "ADDQ", "MOVQ"}}
 			if r.chance(1, 10) {
 				cfg.opcodes = nil
 				cfg.randomFormPct = 50
@@ -148,22 +200,21 @@ func init() {
 			if r.chance(1, 5) {
 				g.cfg.opcodes = []string{"NOP"}
 			}
-			fn := g.generate()
-			req := encNodes(fn)
-			resp := runCFG(fn)
-			if strings.HasPrefix(resp, "err") {
-				stats["err:"+lastCFGErrClass]++
-			} else {
-				stats["ok:graph"]++
-			}
-			stats["nodes"] += len(fn.Nodes)
-			for _, n := range fn.Nodes {
-				if _, ok := n.(ir.Label); ok {
-					stats["labels"]++
-				}
-			}
-			o.emit("cfg "+req, resp)
-			o.emit("accept-cfg "+req+" => "+resp, "ok")
+			run("table", g.generate())
+		}
+		// stream 2: EVERY node sequence up to a small length over a fixed alphabet (independent of the seed)
+		for _, e := range c09EnumPlan(*f.tier) {
+			c09Enumerate(e.alphabet, e.minLen, e.maxLen, func(fn *ir.Function) { run("enum", fn) })
+		}
+		// stream 3: hand-shaped random functions: label names of every kind, CALL label, empty / label-only /
+		// comment-only functions, long functions
+		for k := 0; k < *f.n/2; k++ {
+			run("named", c09NamedFunc(r.fork(), stats))
+		}
+		stats["build_failed"] = 0
+		for opc, c := range c09BuildFailed {
+			stats["build_failed"] += c
+			stats["build_failed:"+opc] += c
 		}
 		return writeJSON(*f.stats, stats)
 	})
@@ -213,4 +264,231 @@ func decodeNodes(ts []string) (*ir.Function, int, error) {
 		}
 	}
 	return fn, p, nil
+}
+
+// ---------------------------------------------------------------------------
+// C09's own generators
+// ---------------------------------------------------------------------------
+
+// c09Sym builds one node of the enumeration alphabet; instructions come from the real form table
+// (x86.VerifBuild), so their control-flow flags are avo's own.
+type c09Sym struct {
+	name string
+	add  func(fn *ir.Function)
+}
+
+// c09BuildFailed counts instructions the form table refused (replaced by NOP); the check demands 0.
+var c09BuildFailed = map[string]int{}
+
+func c09Inst(opcode string, ops ...operand.Op) func(fn *ir.Function) {
+	return func(fn *ir.Function) {
+		inst, err := x86.VerifBuild(opcode, nil, ops)
+		if err != nil || inst == nil {
+			c09BuildFailed[opcode]++
+			inst, _ = x86.VerifBuild("NOP", nil, nil)
+			if inst == nil {
+				inst = &ir.Instruction{Opcode: "NOP"}
+			}
+		}
+		fn.AddInstruction(inst)
+	}
+}
+
+func c09Label(l string) func(fn *ir.Function) { return func(fn *ir.Function) { fn.AddLabel(ir.Label(l)) } }
+
+var c09Alphabet = map[string]c09Sym{}
+
+func c09Syms(names ...string) []c09Sym {
+	if len(c09Alphabet) == 0 {
+		for _, s := range []c09Sym{
+			{"La", c09Label("a")}, {"Lb", c09Label("b")},
+			{"C", func(fn *ir.Function) { fn.AddComment("c") }},
+			{"NOP", c09Inst("NOP")}, {"RET", c09Inst("RET")},
+			{"JMPa", c09Inst("JMP", operand.LabelRef("a"))}, {"JNEa", c09Inst("JNE", operand.LabelRef("a"))},
+			{"JMPb", c09Inst("JMP", operand.LabelRef("b"))}, {"JNEb", c09Inst("JNE", operand.LabelRef("b"))},
+			{"JMPr", c09Inst("JMP", reg.RAX)}, {"JMPz", c09Inst("JMP", operand.LabelRef("z"))},
+			{"CALLa", c09Inst("CALL", operand.LabelRef("a"))},
+		} {
+			c09Alphabet[s.name] = s
+		}
+	}
+	var out []c09Sym
+	for _, n := range names {
+		s, ok := c09Alphabet[n]
+		if !ok {
+			panic("c09: unknown symbol " + n)
+		}
+		out = append(out, s)
+	}
+	return out
+}
+
+type c09EnumSpec struct {
+	alphabet       []c09Sym
+	minLen, maxLen int
+}
+
+func c09EnumPlan(tier string) []c09EnumSpec {
+	full := c09Syms("La", "Lb", "C", "NOP", "RET", "JMPa", "JNEa", "JMPb", "JNEb", "JMPr", "JMPz", "CALLa")
+	mid := c09Syms("La", "Lb", "C", "NOP", "RET", "JMPa", "JNEa", "JNEb")
+	small := c09Syms("La", "Lb", "NOP", "RET", "JMPa", "JNEb")
+	if tier == "thorough" {
+		return []c09EnumSpec{{full, 0, 4}, {mid, 5, 5}, {small, 6, 6}}
+	}
+	return []c09EnumSpec{{full, 0, 3}, {mid, 4, 4}, {small, 5, 5}}
+}
+
+// c09Enumerate calls visit on a fresh function for every word over the alphabet with minLen <= length <= maxLen.
+func c09Enumerate(alphabet []c09Sym, minLen, maxLen int, visit func(fn *ir.Function)) {
+	for n := minLen; n <= maxLen; n++ {
+		word := make([]int, n)
+		for {
+			fn := ir.NewFunction("f")
+			for _, k := range word {
+				alphabet[k].add(fn)
+			}
+			visit(fn)
+			p := n - 1
+			for p >= 0 {
+				word[p]++
+				if word[p] < len(alphabet) {
+					break
+				}
+				word[p] = 0
+				p--
+			}
+			if p < 0 {
+				break
+			}
+		}
+	}
+}
+
+// c09Names: groups of label names that a sloppy comparison (case folding, trimming, truncation, normalisation,
+// prefix matching) would confuse although they are different labels.
+var c09Names = [][]string{
+	{"l0", "L0", "l0 ", " l0", "l0\t", "l00", "l"},
+	{"loop", "Loop", "LOOP", "loop_", "loo"},
+	{strings.Repeat("x", 300) + "a", strings.Repeat("x", 300) + "b", strings.Repeat("x", 300)},
+	{"\u00fc", "\u00dc", "u\u0308", "\u03bb", "l\u00b70", "l.0"},
+	{"", " ", "-", "=", "undefined_label"},
+	{"AX", "ax", "SB", "a.b", "a b", "0", "00"},
+}
+
+func c09NamedFunc(r *rng, stats map[string]int) *ir.Function {
+	fn := ir.NewFunction("f")
+	switch r.intn(40) {
+	case 0: // empty function
+		return fn
+	case 1: // labels (and comments) only: no instruction follows any label
+		for k := 1 + r.intn(3); k > 0; k-- {
+			if r.chance(1, 3) {
+				fn.AddComment("c")
+			}
+			fn.AddLabel(ir.Label(fmt.Sprintf("only%d", k)))
+		}
+		return fn
+	case 2: // comments only
+		for k := 1 + r.intn(3); k > 0; k-- {
+			fn.AddComment("c")
+		}
+		return fn
+	}
+	group := pick(r, c09Names)
+	if r.chance(1, 4) {
+		group = append(append([]string{}, group...), pick(r, c09Names)...)
+	}
+	// the labels defined in this function: a random subset of the group, each at a random instruction slot
+	n := 1 + r.intn(12)
+	if r.chance(1, 25) {
+		n = 100 + r.intn(300)
+	}
+	var defined []string
+	for _, l := range group {
+		if r.chance(1, 2) {
+			defined = append(defined, l)
+		}
+	}
+	if len(defined) == 0 {
+		defined = []string{group[0]}
+	}
+	valid := !r.chance(1, 4)
+	at := map[int][]string{}
+	for _, l := range defined {
+		p := r.intn(n)
+		if !valid && r.chance(1, 6) {
+			p = n // trailing label
+		}
+		at[p] = append(at[p], l)
+	}
+	if !valid && r.chance(1, 4) {
+		at[r.intn(n+1)] = append(at[r.intn(n+1)], pick(r, defined)) // duplicate
+	}
+	target := func() string {
+		if valid || r.chance(3, 4) {
+			return pick(r, defined)
+		}
+		return pick(r, group) // possibly a near-miss of a defined name: undefined
+	}
+	cond := []string{"JNE", "JEQ", "JCS", "JLT", "JHI", "JA", "JZ", "JPL", "JOS"}
+	for i := 0; i <= n; i++ {
+		for _, l := range at[i] {
+			if r.chance(1, 6) {
+				fn.AddComment("c")
+			}
+			fn.AddLabel(ir.Label(l))
+		}
+		if i == n {
+			break
+		}
+		var add func(*ir.Function)
+		switch x := r.intn(100); {
+		case x < 25:
+			add = c09Inst("JMP", operand.LabelRef(target()))
+		case x < 50:
+			add = c09Inst(pick(r, cond), operand.LabelRef(target()))
+		case x < 62:
+			// a non-branch instruction that carries a label reference
+			l := target()
+			if r.chance(1, 4) {
+				l = pick(r, group)
+			}
+			add = c09Inst("CALL", operand.LabelRef(l))
+			stats["call_label"]++
+		case x < 65 && !valid:
+			if r.chance(1, 2) {
+				add = c09Inst("JMP", reg.RCX)
+			} else {
+				add = c09Inst("JMP", operand.Mem{Base: reg.RAX, Disp: 8})
+			}
+		case x < 70 && !valid:
+			add = c09Inst(pick(r, append([]string{"JCXZQ", "JCXZL"}, cond...)), operand.Rel(8))
+		case x < 76:
+			add = c09Inst("RET")
+		case x < 90:
+			add = c09Inst("ADDQ", reg.RAX, reg.RCX)
+		default:
+			add = c09Inst("NOP")
+		}
+		add(fn)
+		if r.chance(1, 12) {
+			fn.AddComment("c")
+		}
+	}
+	for _, l := range defined {
+		if l != strings.ToLower(l) || strings.TrimSpace(l) != l || len(l) > 100 || !c09ASCII(l) || l == "" {
+			stats["name_variant_defined"]++
+			break
+		}
+	}
+	return fn
+}
+
+func c09ASCII(s string) bool {
+	for i := 0; i < len(s); i++ {
+		if s[i] >= 0x80 {
+			return false
+		}
+	}
+	return true
 }
